@@ -38,7 +38,7 @@ PROPS = {
 }
 
 # runs per tier: (fault-free, faulty); property modules may override with RUNS = {...}
-DEFAULT_RUNS = {"quick": (600, 600), "thorough": (12000, 12000)}
+DEFAULT_RUNS = {"quick": (1500, 1500), "thorough": (30000, 30000)}
 
 
 def load_prop(pid):
